@@ -35,10 +35,18 @@ one-level summaries computed to a fixpoint over all units) plus Engine I (sa/int
   R13.12 unevaluated text      the evaluators (recursive value functions over Node, derived) visit the right operand of && / || and the arms of ?: only
                                under the matching outcome of a test of the controlling operand's value; the #elif arm hands its line to a function that
                                reaches the evaluators only where the flag it sets when a group is taken is known to be false.
-  R13.13 valid redeclarations  function() reaches no diagnostic for any sequence of declarations of one function that C11 allows (storage class x inline x body,
-                               after every history function() itself can have produced); Engine I on concrete specifier flags (sa/lib_c13decl.py).
-  R13.14 valid specifier lists declspec() consumes every C11 declaration-specifier list of the enumerated families (storage class, function specifiers, qualifiers,
-                               _Atomic, _Alignas, type-specifier lists; several orders; with and without VarAttr) completely and without a diagnostic.
+  R13.13-R13.16                a diagnostic of the front end is not reachable on a construct C11 allows (a valid program must be answered with output).  The parser
+                               functions that decide from a finite description whether a construct is diagnosed are interpreted (Engine I, sa/lib_c13decl.py) on
+                               every description of that kind that an independent statement of the C11 rule calls valid; a diagnostic on a fully determined path is
+                               a violation, one that depends on an unknown value is undecided.
+  R13.13 valid redeclarations  function(): every sequence of declarations of one function (storage class x inline x body) after every history function() itself can
+                               have produced (closure over the reachable Obj states); only `static` after external linkage and a second body are errors.
+  R13.14 valid specifier lists declspec(): storage-class / function specifiers, qualifiers, _Atomic, _Alignas, the type-specifier multisets of 6.7.2p2, several orders,
+                               with and without VarAttr: consumed completely, no diagnostic.
+  R13.15 valid operand types   new_add/new_sub (6.5.6), funcall (callee kind, argument count), add_type (assignment, indirection), unary & , declaration (complete object
+                               types), enum tags, member access, bit-field types: witness types of every allowed class reach no diagnostic.
+  R13.16 constant expressions  the evaluators (derived: recursive value functions over Node, through their entry points) yield a value for every operator of 6.6p6/p8
+                               and for the address-constant forms of 6.6p9; is_const_expr recognises the integer forms.
 
 Not implemented (stated, not claimed): error_at's pointer lies inside current_file->contents (R13.6, second clause);
 store_fp/store_gp call sites whose argument is MIN(8,size) / size-8 (R13.3, listed as not judged in the evidence);
@@ -220,6 +228,9 @@ def run(P, rep, tier):
                        'gen_addr\'s conditional arms are compared with the type kinds the parser accepts as member bases; the line stamping of tokens is decided by the byte-loop analysis of C18. '
                        'host divisions whose divisor comes from the constant-expression evaluators are proved guarded against 0 (and -1 for signed ones) by the same guard facts; '
                        'the evaluators and the #elif arm are checked to leave alone what C leaves unevaluated (outcome of the controlling operand / group-taken flag remembered per path). '
+                       'Acceptance of valid constructs: function(), declspec(), the additive/call/assignment/indirection typing checks and the constant-expression evaluators are interpreted on '
+                       'concrete finite descriptions (specifier flags and declaration histories, token lists of specifiers, witness operand types, witness expression trees) that C11 allows; '
+                       'none may reach a diagnostic. '
                        'Not decided: termination, acceptance of all byte strings, recursion depth.')
     rep.assumptions += ['calloc/malloc/open_memstream succeed', 'every Node that reaches the code generator was typed by add_type and is not modified afterwards (typing relation injected into codegen.c)',
                         'a forced merge of analysis states (more than %d disjuncts, loop widening) makes disagreeing facts unknown, never may-be-NULL' % L.CAP, 'a callee does not reset an object field the caller has just tested (no alias kills); globals are killed only by direct writers',
@@ -232,6 +243,9 @@ def run(P, rep, tier):
                         'a boolean field that every store sets to true only where a sub-object of the owner has validated kinds (derived, listed under derived_tables) implies those kinds where the field '
                         'is tested; the sub-object is not replaced afterwards; records also built by initializer lists are excluded',
                         'two pointer variables of which one is a plain copy of the other, neither assigned since, are equal: a store through one is a store through the other',
+                        'R13.13-R13.16: the validity of each enumerated construct is stated from C11 (6.2.2, 6.5.x, 6.6, 6.7.x), independently of the code; functions outside the interpreted one and its '
+                        'private helpers are opaque (declarator, assign, cast, const_expr, find_func, find_tag, get_struct_member are replaced by the contract "consumes its tokens, returns the described object"); '
+                        'add_type leaves a node that already has a type alone',
                         'facts established in other functions, each confirmed by reading: ' + '; '.join('%s:%s %s (%s)' % (k[0], k[1], k[2], v) for k, v in sorted(ASSUMED.items()))]
     W = _world(P)
     engs = L.solve(W)
@@ -271,9 +285,11 @@ def run(P, rep, tier):
     r1310_phases(P, rep)
     r1311(W, engs, rep)
     r1312(W, engs, rep)
-    LD.r1313_function(P, rep)
-    LD.r1314_declspec(P, rep)
-    LD.r1315_typing(P, rep)
+    for rule, fam in (('R13.13', LD.r1313_function), ('R13.14', LD.r1314_declspec), ('R13.15', LD.r1315_typing), ('R13.16', LD.r1316_constexpr)):
+        try:
+            fam(P, rep, rule)
+        except AnalysisBroken as e:
+            rep.undecided(rule, 'parse.c:engine:interpretation', 'the front-end function cannot be interpreted on concrete inputs: %s' % e)
 
 
 def r1310_phases(P, rep):
